@@ -6,17 +6,17 @@ pub const BOUNDARY: &[usize] =
 /// SMALL ∪ BOUNDARY
 pub const LAT: &[usize] = &[
     0, 1, 2, 3, 4, 5, 6, 7, 8, 9, 10, 11, 12, 15, 16, 17, 31, 32, 33, 63, 64, 65, 100, 127, 128, 129, 255, 256, 257, 511,
-    512, 1000, 1023, 1024,
+    512, 1000, 1023, 1024, 2048, 4096,
 ];
 /// SMALL ∪ a few boundary values: for checks whose per-length code is large
-pub const MID: &[usize] = &[0, 1, 2, 3, 4, 5, 6, 7, 8, 9, 10, 11, 12, 16, 31, 32, 33, 64, 100, 255, 256, 1000, 1024];
+pub const MID: &[usize] = &[0, 1, 2, 3, 4, 5, 6, 7, 8, 9, 10, 11, 12, 16, 31, 32, 33, 64, 100, 255, 256, 1000, 1024, 2048, 4096];
 
 /// `len_match!(n, N, body, [0: U0, 1: U1, ...])` binds the type alias `N` and evaluates `body`.
 #[macro_export]
 macro_rules! len_match {
     ($n:expr, $N:ident, $body:expr, [$($num:literal : $ty:ident),* $(,)?]) => {
         match $n {
-            $( $num => { #[allow(dead_code)] type $N = generic_array::typenum::$ty; $body } )*
+            $( $num => { #[allow(dead_code)] type $N = $crate::lens::names::$ty; $body } )*
             other => panic!("length {} is not in this lattice", other),
         }
     };
@@ -41,7 +41,7 @@ macro_rules! with_lat {
     ($n:expr, $N:ident, $body:expr) => {
         $crate::len_match!($n, $N, $body, [0: U0, 1: U1, 2: U2, 3: U3, 4: U4, 5: U5, 6: U6, 7: U7, 8: U8, 9: U9, 10: U10, 11: U11, 12: U12,
             15: U15, 16: U16, 17: U17, 31: U31, 32: U32, 33: U33, 63: U63, 64: U64, 65: U65, 100: U100, 127: U127, 128: U128, 129: U129,
-            255: U255, 256: U256, 257: U257, 511: U511, 512: U512, 1000: U1000, 1023: U1023, 1024: U1024])
+            255: U255, 256: U256, 257: U257, 511: U511, 512: U512, 1000: U1000, 1023: U1023, 1024: U1024, 2048: U2048, 4096: U4096])
     };
 }
 
@@ -49,6 +49,17 @@ macro_rules! with_lat {
 macro_rules! with_mid {
     ($n:expr, $N:ident, $body:expr) => {
         $crate::len_match!($n, $N, $body, [0: U0, 1: U1, 2: U2, 3: U3, 4: U4, 5: U5, 6: U6, 7: U7, 8: U8, 9: U9, 10: U10, 11: U11, 12: U12,
-            16: U16, 31: U31, 32: U32, 33: U33, 64: U64, 100: U100, 255: U255, 256: U256, 1000: U1000, 1024: U1024])
+            16: U16, 31: U31, 32: U32, 33: U33, 64: U64, 100: U100, 255: U255, 256: U256, 1000: U1000, 1024: U1024, 2048: U2048, 4096: U4096])
     };
+}
+
+/// typenum's named constants plus a few lengths that have no name of their own
+pub mod names {
+    pub use generic_array::typenum::*;
+    pub type U4097x = generic_array::typenum::operator_aliases::Add1<U4096>;
+    pub type U3000x = generic_array::typenum::operator_aliases::Prod<U1000, U3>;
+    pub type U3500x = generic_array::typenum::operator_aliases::Prod<U500, U7>;
+    pub type U5000x = generic_array::typenum::operator_aliases::Prod<U1000, U5>;
+    pub type U6000x = generic_array::typenum::operator_aliases::Prod<U1000, U6>;
+    pub type U12000x = generic_array::typenum::operator_aliases::Prod<U1000, U12>;
 }
